@@ -22,10 +22,10 @@ Lemma gen_purge : purge_on_finish = true. Proof. reflexivity. Qed.
 Lemma gen_scatter : scatter_skips_stopped = true. Proof. reflexivity. Qed.
 Lemma gen_worker_fails : forall e b, worker_fails e b = (Nat.ltb 0 e || b).
 Proof. reflexivity. Qed.
-Lemma gen_load_ok : forall e, load_ok e = Nat.eqb e 0. Proof. reflexivity. Qed.
+Lemma gen_load_ok : forall e b, load_ok e b = (Nat.eqb e 0 && negb b). Proof. reflexivity. Qed.
 Lemma gen_stop : stop_ok_after_failure = false. Proof. reflexivity. Qed.
 Lemma gen_tmo : tmo_worker = TDefault /\ tmo_query = TDefault /\ tmo_hardstop = TDefault /\
-                tmo_softstop = TNone /\ tmo_load = TNone.
+                tmo_softstop = TNone /\ tmo_load = TDefault.
 Proof. repeat split; reflexivity. Qed.
 Lemma gen_unserved : unserved_answered = true. Proof. reflexivity. Qed.
 
@@ -74,7 +74,7 @@ Proof.
   - destruct (worker_fails e b); reflexivity.
   - reflexivity.
   - destruct (stop_fails b hard e); [rewrite gen_stop|]; reflexivity.
-  - destruct (load_ok e); reflexivity.
+  - destruct (load_ok e b); reflexivity.
 Qed.
 
 Lemma run_app : forall es1 es2 h,
@@ -425,7 +425,7 @@ Qed.
 (** ** Well-formedness of reachable hubs *)
 
 (** the task kinds that are created without a deadline *)
-Definition nd (k : kind) : bool := match k with KLoad | KStop false => true | _ => false end.
+Definition nd (k : kind) : bool := match k with KStop false => true | _ => false end.
 
 Record WF (h : hub) : Prop := mkWF {
   wf_tid : forall t, In t (tasks h) -> t_id t < next_task h;
@@ -918,7 +918,7 @@ Proof.
   - destruct (new_task h c KLoad tmo_load) as [h1 tid] eqn:E1.
     destruct (scatter_many h1 (next_rq h) tid (seq 1 n)) as [h2 o] eqn:E2.
     pose proof (spawn_inv es h os c KLoad tmo_load (fun h1 rq tid => scatter_many h1 rq tid (seq 1 n)) (VLoad n bad) I
-                          (fun _ => proj2 (proj2 (proj2 (proj2 gen_tmo))))) as Hs.
+                          ltac:(discriminate)) as Hs.
     assert (Hsc : forall h1 tid h2 o, WF h1 -> (exists t, In t (tasks h1) /\ t_id t = tid) -> fresh_idx h1 tid 0 ->
                    scatter_many h1 (next_rq h) tid (seq 1 n) = (h2, o) -> Scattered h1 (next_rq h) tid h2 o).
     { intros a b c0 d Wa Ha Fa Ea.
@@ -1364,12 +1364,12 @@ Proof.
           destruct (t_deadline t); [destruct (expired n (now h1)); discriminate|discriminate].
         * assert (Hnd : nd (t_kind t) = true) by (rewrite Hk; reflexivity).
           rewrite (wf_load _ W1 t Hin Hnd) in Hfin. discriminate.
-    - rewrite gen_load_ok in Hok. destruct (Nat.eqb (t_err t) 0) eqn:Ee; [|cbn in Hok; destruct Hok as [Hx|[]]; discriminate].
-      apply Nat.eqb_eq in Ee.
-      assert (Hnd : nd (t_kind t) = true) by (rewrite Hk; reflexivity).
-      rewrite (wf_load _ W1 t Hin Hnd) in Hfin.
-      destruct (Nat.leb (t_exp t) (t_ok t + t_err t)) eqn:Ele; [|discriminate].
-      apply Nat.leb_le in Ele. inversion Hfin. repeat split; lia. }
+    - rewrite gen_load_ok, gen_flag in Hok.
+      destruct (Nat.eqb (t_err t) 0) eqn:Ee; [|cbn in Hok; destruct Hok as [Hx|[]]; discriminate].
+      destruct raw; [cbn in Hok; destruct Hok as [Hx|[]]; discriminate|].
+      apply Nat.eqb_eq in Ee. destruct (Nat.leb (t_exp t) (t_ok t + t_err t)) eqn:Ele.
+      + apply Nat.leb_le in Ele. repeat split; lia.
+      + destruct (t_deadline t); [destruct (expired n (now h1)); discriminate|discriminate]. }
   destruct Hcore as [Hraw [Herr Hexp]]. repeat split; try assumption.
   intros w r Hs.
   assert (Hs1 : In (OSend w r (t_rq t)) (os ++ o1)).
@@ -1551,7 +1551,7 @@ Proof.
       - rewrite seq_length. reflexivity.
       - intros r x Hin Hr. specialize (Fa r x Hin Hr). lia. }
     pose proof (spawn_tasks h c KLoad tmo_load (fun h1 rq tid => scatter_many h1 rq tid (seq 1 n)) W
-                       (fun _ => proj2 (proj2 (proj2 (proj2 gen_tmo)))) Hsc2 _ _ _ _ E1 E2) as [Hnow Hts].
+                       ltac:(discriminate) Hsc2 _ _ _ _ E1 E2) as [Hnow Hts].
     destruct bad; inversion H; subst; clear H; [|split; [exact Hnow|exact Hts]].
     split; [exact Hnow|]. intros t Hin. destruct (Hts t Hin) as [t1 [Hin1 Hs1]]. exists t1. split; [|exact Hs1].
     cbn [bump_rq cancel_task tasks]. apply filter_In. split; [exact Hin1|].
@@ -1745,7 +1745,7 @@ Proof.
   unfold client_request in H.
   destruct (new_task h c KLoad tmo_load) as [h1 tid] eqn:E1.
   destruct (scatter_many h1 (next_rq h) tid (seq 1 n)) as [h2 o] eqn:E2. inversion H; subst h' os'; clear H.
-  destruct (new_task_wf _ _ _ _ _ _ (inv_wf _ _ _ I) E1 (fun _ => proj2 (proj2 (proj2 (proj2 gen_tmo))))) as
+  destruct (new_task_wf _ _ _ _ _ _ (inv_wf _ _ _ I) E1 ltac:(discriminate)) as
       [W1 [Etid [Ent [Eif [Ew [Enr [Enow [Eg [Est [Etm Ets]]]]]]]]]].
   assert (Hex : exists t, In t (tasks h1) /\ t_id t = tid).
   { eexists. split; [rewrite Ets; apply in_or_app; right; left; reflexivity|reflexivity]. }
